@@ -41,12 +41,26 @@ inductive Kind where
   | value                                            -- one string value
   | count                                            -- action='count', default 0
   | optChoice (choices : List Name) (dflt : Name)    -- nargs='?', choices, const None
-  | help                                             -- argparse's -h/--help
+  | help                                             -- action='help': argparse's -h/--help, or declared by the application
+  | version (v : Name)                               -- action='version', version=v: prints `v`, exits with status 0
   | pos (n : PosN)                                   -- positional
   deriving DecidableEq, Repr
 
 def Kind.isPos : Kind → Bool
   | .pos _ => true
+  | _ => false
+
+/-- `type=` / `choices=` of a value option: what the argument string must be and what is stored -/
+inductive Conv where
+  | str                          -- neither: the string itself
+  | int                          -- `type=int`: Python's `int(text)`; a non-integer is refused
+  | oneOf (l : List Name)        -- `choices=[...]`: a non-member is refused
+  deriving DecidableEq, Repr
+
+/-- `action='help'` / `action='version'`: print and leave, nothing is stored -/
+def Kind.isInfo : Kind → Bool
+  | .help => true
+  | .version _ => true
   | _ => false
 
 structure OptSpec where
@@ -56,6 +70,7 @@ structure OptSpec where
   dest : Option Name := none -- explicit `dest=`
   required : Bool := false   -- `required=True`
   dflt : Option Name := none -- `default=` of a value option (a string; the harness also uses it for objects)
+  conv : Conv := .str        -- `type=int` / `choices=[...]` of a value option
   deriving DecidableEq, Repr
 
 /-- a command parser (`AkArgumentParser`) -/
@@ -73,6 +88,8 @@ structure Cfg where
   helpFirst : List Name      -- the literal `['-h', '--help']` of `parse_args`
   allParsers : Bool          -- first argument is compared with all parser names (`command_parsers`),
                              -- `false`: with the public command names only
+  copiesArgs : Bool          -- `parse_args` works on `list(args)`: any sequence is taken, the caller's object is
+                             -- left alone (`false`: the default command is inserted into the caller's own list)
   deriving Repr
 
 structure St where
@@ -84,6 +101,7 @@ inductive Fail where
   | exc (e : Err)
   | argumentError
   | exit (code : Nat)
+  | version (v : Name)       -- `SystemExit(0)` after printing the version text `v`
   | ood
   deriving DecidableEq, Repr
 
@@ -224,6 +242,17 @@ def addOption (st : St) (target : Option Name) (s : OptSpec) : Except Fail St :=
       match mapE (fun r => if r.name = p ∨ r.name ∈ q.deps then r.addOpt s else .ok r) st.parsers with
       | .error e => .error e
       | .ok ps => .ok { st with parsers := ps }
+
+/-- `get_cmd_parser(p).add_mutually_exclusive_group().add_argument(...)` / `.add_argument_group().add_argument(...)`:
+the group object is argparse's own, its `add_argument` is not `AkArgumentParser.add_argument` — the option lands
+in `p` and **nowhere else** (known finding `group_options_not_inherited`; such states are outside `addAll`) -/
+def addViaGroup (st : St) (p : Name) (s : OptSpec) : Except Fail St :=
+  match findParser st.parsers p with
+  | none => .error (.exc .valueError)
+  | some _ =>
+    match mapE (fun r => if r.name = p then r.addOpt s else .ok r) st.parsers with
+    | .error e => .error e
+    | .ok ps => .ok { st with parsers := ps }
 
 /-- a history of `add_argument` calls, all of which must succeed -/
 def addAll : St → List (Option Name × OptSpec) → Except Fail St
